@@ -7,6 +7,7 @@ pub mod digests;
 pub mod distinfos;
 pub mod names;
 pub mod patterns;
+pub mod plists;
 pub mod summaries;
 pub mod versions;
 
@@ -44,6 +45,8 @@ impl Gen {
             "distmessy" => Some(("distparse".into(), json!({"bytes": bytes_json(&distinfos::messy(rng))}))),
             "distbuild" => Some(("distbuild".into(), distinfos::build(rng))),
             "verify" => Some(("verify".into(), distinfos::verify(rng))),
+            "plist" => Some(("plist".into(), json!({"bytes": bytes_json(&plists::plist(rng))}))),
+            "plistline" => Some(("plistline".into(), json!({"bytes": bytes_json(&plists::line(rng))}))),
             "digest" => Some(("digest".into(), digests::case(rng))),
             "algname" => Some(("algname".into(), json!({"s": codes(&digests::algname(rng))}))),
             "hashvec" => Some(("hashvec".into(), json!({"data": bytes_json(&digests::vector(rng, i))}))),
